@@ -44,6 +44,11 @@ ASSUMPTIONS = [
     "already reported an error (early exit)': the placeholder check runs after the only allowed early exit",
     "part II of Props/C08.v (fixed=false) is the record of the defects repaired by ae9929b, 8a59f35, f477d0a",
     "correspondence is exhaustive only over the stated small alphabets (bounded); the fault-injection stream is random",
+    "V_hashes is answered with the number of '#' CHARACTERS of the rendered string (the rule of the statement), not "
+    "with the implementation's helper; the position-independence of the rule is C08_fault_*_hash_anywhere",
+    "equivalence of the entry points (Sidecar.validate, SidecarValidator.validate, list of files, file path, two merged "
+    "files) and independence of the answer from an earlier validate() on the same object are TESTED only (every "
+    "generated case is run through one of them in rotation and compared with the entry-point-agnostic model)",
 ]
 
 # 0 = the code as it exists (findings C08-F1..F3 open); set to 1 once the three repairs of the report are applied
@@ -96,20 +101,60 @@ def canon(issues):
     return sorted([i["code"], 1 if i["severity"] < ErrorSeverity.WARNING else 0] for i in issues)
 
 
-def impl_one(text):
-    """Observable behaviour of the implementation on one JSON text."""
+ENTRY_MODES = ["Sidecar.validate", "SidecarValidator.validate", "list-of-files", "file-path", "validate-twice",
+               "two-merged-files"]
+
+
+def impl_one(text, mode=0):
+    """Observable behaviour of the implementation on one JSON text.
+
+    mode selects the entry point / history (all must give the same answer):
+      0 Sidecar(io).validate(schema)              1 SidecarValidator(schema).validate(Sidecar(io))
+      2 Sidecar([io]).validate(schema)            3 Sidecar(path of a scratch file).validate(schema)
+      4 the same Sidecar object validated twice (both answers reported)
+      5 the columns split over two files that are merged by Sidecar([io1, io2]) (objects only)"""
     from hed.models.sidecar import Sidecar
+    from hed.validator.sidecar_validator import SidecarValidator
+    tmp = None
     try:
-        sc = Sidecar(io.StringIO(text))
-    except Exception as e:  # noqa
-        return ["exn", "load", type(e).__name__]
-    try:
-        issues = sc.validate(schema())
-    except Exception as e:  # noqa
-        return ["exn", "validate", type(e).__name__]
-    if not isinstance(issues, list):
-        return ["exn", "validate", "not-a-list"]
-    return ["ok", canon(issues)]
+        try:
+            if mode == 2:
+                sc = Sidecar([io.StringIO(text)])
+            elif mode == 3:
+                tmp = C.scratch_dir("hedverif-c08-")
+                path = os.path.join(tmp, "task-x_events.json")
+                with open(path, "w", encoding="utf8") as f:
+                    f.write(text)
+                sc = Sidecar(path)
+            elif mode == 5 and isinstance(json.loads(text), dict) and len(json.loads(text)) >= 2:
+                doc = json.loads(text)
+                keys = list(doc)
+                h = len(keys) // 2
+                sc = Sidecar([io.StringIO(json.dumps({k: doc[k] for k in keys[:h]})),
+                              io.StringIO(json.dumps({k: doc[k] for k in keys[h:]}))])
+            else:
+                sc = Sidecar(io.StringIO(text))
+        except Exception as e:  # noqa
+            return ["exn", "load", type(e).__name__]
+        try:
+            if mode == 1:
+                issues = SidecarValidator(schema()).validate(sc)
+            else:
+                issues = sc.validate(schema())
+            if mode == 4:
+                first = issues
+                issues = sc.validate(schema())
+                if isinstance(first, list) and isinstance(issues, list) and canon(first) != canon(issues):
+                    return ["history", canon(first), canon(issues)]
+        except Exception as e:  # noqa
+            return ["exn", "validate", type(e).__name__]
+        if not isinstance(issues, list):
+            return ["exn", "validate", "not-a-list"]
+        return ["ok", canon(issues)]
+    finally:
+        if tmp:
+            import shutil
+            shutil.rmtree(tmp, ignore_errors=True)
 
 
 def answer_queries(ds, queries):
@@ -175,8 +220,8 @@ def answer_queries(ds, queries):
 
 def work(arg):
     """(text, phase-1 output of the model or None) -> (impl result, answer table or error string)."""
-    text, q = arg
-    r = impl_one(text)
+    text, q, mode = arg
+    r = impl_one(text, mode)
     table = None
     if q is not None and isinstance(q, list) and q and q[0] != "ERR":
         try:
@@ -268,6 +313,83 @@ def struct_ok(doc):
     return True
 
 
+SCREENING_CODES = {"SIDECAR_INVALID", "SIDECAR_BRACES_INVALID", "sidecarUnknownColumn", "wrongHedDataType",
+                   "blankValueString"}
+
+
+def hash_fault(doc):
+    """A definition-free string that breaks the '#' count rule (value column: exactly one, categorical entry:
+    none), wherever the '#' characters stand; None when the rule is obeyed.  Statement-level, independent of the code."""
+    if not isinstance(doc, dict):
+        return None
+    for k, v in doc.items():
+        if k == "HED" or not isinstance(v, dict) or "HED" not in v:
+            continue
+        h = v["HED"]
+        if isinstance(h, str):
+            if "def" not in h.lower() and h.count("#") != 1:
+                return f"value column {k!r}: {h!r}"
+        elif isinstance(h, dict) and h and all(isinstance(x, str) and x for x in h.values()):
+            for ck, x in h.items():
+                if "def" not in x.lower() and "#" in x:
+                    return f"categorical entry {k!r}/{ck!r}: {x!r}"
+    return None
+
+
+def hed_bearing_strings(v):
+    """Strings of a HED-bearing entry (string with '#', or map of strings), else None."""
+    if not isinstance(v, dict) or not v or "HED" not in v:
+        return None
+    h = v["HED"]
+    if isinstance(h, str):
+        return [h] if "#" in h else None
+    if isinstance(h, dict) and all(isinstance(x, str) for x in h.values()):
+        return list(h.values())
+    return None
+
+
+def expected_fault_codes(doc):
+    """Codes that MUST appear among the error codes, by the fault theorems that hold for EVERY sidecar
+    (C08_fault_hed_column / na_key / hed_entry_type / category_nonstring / category_blank / braces / unknown_ref /
+    self_ref / nested_ref).  Written from the rules of the statement; returns [(code, reason)]."""
+    out = []
+    if not isinstance(doc, dict):
+        return out
+    hed_cols = {k for k, v in doc.items() if isinstance(v, dict) and v and "HED" in v}
+    refs_of = {}
+    for name, v in doc.items():
+        if name == "HED":
+            out.append(("SIDECAR_INVALID", "HED used as a column name"))
+        if isinstance(v, dict) and name != "HED" and "HED" in v:
+            h = v["HED"]
+            if not isinstance(h, (str, dict)):
+                out.append(("sidecarUnknownColumn", f"HED entry of {name!r} is neither a string nor a map"))
+            if isinstance(h, dict):
+                for k, val in h.items():
+                    if not val:
+                        out.append(("blankValueString", f"empty category value {name!r}/{k!r}"))
+                    elif not isinstance(val, str):
+                        out.append(("wrongHedDataType", f"non-string category value {name!r}/{k!r}"))
+                    elif k == "n/a":
+                        out.append(("SIDECAR_INVALID", f"n/a category key in {name!r}"))
+        strs = hed_bearing_strings(v)
+        if strs is not None:
+            refs_of[name] = [m for s_ in strs for m in REF_RE.findall(s_)]
+            for s_ in strs:
+                if not braces_ok(s_):
+                    out.append(("SIDECAR_BRACES_INVALID", f"unbalanced/nested braces in {name!r}: {s_!r}"))
+                for m in REF_RE.findall(s_):
+                    if m == name:
+                        out.append(("SIDECAR_BRACES_INVALID", f"self reference in {name!r}"))
+                    elif m != "HED" and m not in hed_cols:
+                        out.append(("SIDECAR_BRACES_INVALID", f"reference to unknown column {m!r} in {name!r}"))
+    for n1, r1 in refs_of.items():
+        for m in r1:
+            if m != n1 and refs_of.get(m):
+                out.append(("SIDECAR_BRACES_INVALID", f"nested reference {n1!r} -> {m!r} -> ..."))
+    return out
+
+
 STRUCT_ONLY_CODES = {"SIDECAR_INVALID", "sidecarUnknownColumn", "wrongHedDataType", "blankValueString"}
 
 
@@ -300,9 +422,13 @@ def classify_exception(doc, r):
 def oracle(case, r, res):
     """Check each clause of the statement on the implementation's behaviour."""
     doc = case["doc"]
-    rep = {"json": case["text"], "kind": case["kind"], "fault": case.get("fault")}
+    rep = {"json": case["text"], "kind": case["kind"], "fault": case.get("fault"), "mode": case.get("mode", 0)}
     if FIXED and r == ["exn", "load", "HedFileError"] and not isinstance(doc, dict):
         return      # repaired behaviour: a document that is not an object is refused with the documented HedFileError
+    rep["entry"] = ENTRY_MODES[case.get("mode", 0)]
+    if r[0] == "history":
+        res.report("history-independent", rep, f"the same Sidecar object validated twice: first {r[1]} then {r[2]}")
+        return
     if r[0] == "exn":
         res.report("never-raises", rep, f"{r[2]} during {r[1]}", fid=classify_exception(doc, r))
         return
@@ -314,6 +440,15 @@ def oracle(case, r, res):
         # whatever the strings are worth, these codes are never produced by string-level validation
         res.report("wellformed-clean", rep, f"structural error codes {sorted(set(errs) & STRUCT_ONLY_CODES)} on a "
                                             "structurally well-formed sidecar")
+    hf = hash_fault(doc)
+    if hf and "PLACEHOLDER_INVALID" not in errs and not (set(errs) & SCREENING_CODES):
+        # C08_fault_value_hash / C08_fault_category_hash: PLACEHOLDER_INVALID, or the screening reported an error
+        res.report("fault-flagged", rep, f"'#' count rule broken by {hf} but neither PLACEHOLDER_INVALID nor a "
+                                         f"structure/reference error is reported (errors {errs})")
+    for code, why in expected_fault_codes(doc):
+        if code not in errs:
+            res.report("fault-flagged", rep, f"{why}: expected {code}, got errors {errs}")
+            break
     exp = case.get("expect")
     if exp and exp not in errs:
         res.report("fault-flagged", rep, f"fault {case['fault']}: expected {exp}, got errors {errs}")
@@ -321,9 +456,9 @@ def oracle(case, r, res):
 
 # ---------------------------------------------------------------- cases
 
-LEAVES_Q = [None, True, 0, "", "Red", "Red/#", "{a}", "{zz}", "{a", [], {}]
+LEAVES_Q = [None, True, 0, "", "Red", "Red/#", "Label/##", "{a}", "{zz}", "{a", "{a, {b}, Label/#", [], {}]
 LEAVES_T = LEAVES_Q + [1, False, "{b}", "{HED}", "Label/#, {b}", "Blue, {a}", "{a}}", "Label/#, {zz}", ["Red"],
-                       "Label/#, Label/#", "n/a"]
+                       "Label/#, Label/#", "n/a", "{b}, Label/#_#", "Description/# and #"]
 
 
 def column_values(leaves, thorough):
@@ -375,14 +510,21 @@ def enum_docs(tier):
     return docs, len(cols)
 
 
-COLNAMES = ["trial_type", "response", "rt", "stim_file", "resp-2", "Cond_1", "x9", "duration2"]
+COLNAMES = ["trial_type", "response", "rt", "stim_file", "resp-2", "Cond_1", "x9", "duration2", "2nd", "7", "a-b-c", "_x",
+            "K9", "-lead", "UPPER"]
+CATKEYS = ["go", "stop", "1", "left", "right", "A b", "N/A", "n/a ", "NA", "#", "{x}", "é", "", "HED", "0.5", "na"]
 CAT_STR = ["Red", "Blue", "Green", "(Square, Large)", "Sensory-event", "Agent-action, Press", "Item/Object",
            "Label/abc", "Circle", "Ellipse", "Rectangle", "Star", "Cross", "Move", "Walk", "Jump"]
-VAL_STR = ["Label/#", "(Weight/# kg, Yellow)", "Description/#", "Parameter-value/#", "ID/#", "(Age/# years, Violet)"]
+VAL_STR = ["Label/#", "(Weight/# kg, Yellow)", "Description/#", "Parameter-value/#", "ID/#", "(Age/# years, Violet)",
+           "Description/# and more", "(Label/#, (Maroon, Small))"]
+# value strings whose single '#' stands in a Def / Def-expand of the definition column (rarely used entity kinds)
+DEF_VAL_STR = ["Def/Acc/#", "(Def-expand/Acc/#, (Acceleration/# m-per-s^2, Purple)), Olive", "(Def/Acc/#, Olive)"]
 DEF_STR = ["(Definition/MyDef, (Triangle, Small))", "(Definition/Acc/#, (Acceleration/# m-per-s^2, Purple))"]
 IGN_VAL = [{"Description": "free text"}, {"Levels": {"1": "one", "2": "two"}, "LongName": "x"}, {"Units": "s"}, {}]
 if FIXED:   # BIDS metadata that is not an object (legal since fix ae9929b)
     IGN_VAL = IGN_VAL + ["rest", 3, None, ["a", {"x": 1}], True, 0, ""]
+TAIL_DEFAULT = ["Cyan", "Magenta", "Pink", "Orange", "Brown", "Gray", "Black", "White", "Teal", "Navy", "Coral", "Lime",
+                "Salmon", "Tan", "Plum"]
 TAIL_OF = {"trial_type": "Cyan", "response": "Magenta", "rt": "Pink", "stim_file": "Orange", "resp-2": "Brown",
            "Cond_1": "Gray", "x9": "Black", "duration2": "White"}
 
@@ -398,7 +540,7 @@ def gen_wellformed(rng):
         k = rng.choice(["cat", "cat", "value", "value", "ignore"])
         kinds[nm] = k
         if k == "cat":
-            keys = rng.sample(["go", "stop", "1", "left", "right", "A b"], rng.randint(1, 3))
+            keys = rng.sample(CATKEYS, rng.randint(1, 3))
             vals = [avail_cat.pop() for _ in keys]
             doc[nm] = {"HED": dict(zip(keys, vals))}
         elif k == "value":
@@ -410,6 +552,10 @@ def gen_wellformed(rng):
     if rng.random() < 0.25:
         doc["defs"] = {"HED": {"d" + str(i): s for i, s in enumerate(rng.sample(DEF_STR, rng.randint(1, 2)))}}
         kinds["defs"] = "defs"
+        if "Acc/#" in json.dumps(doc["defs"]) and rng.random() < 0.6:
+            tgt = [nm for nm in names if kinds[nm] == "value" and "{" not in doc[nm]["HED"]]
+            if tgt:
+                doc[tgt[0]]["HED"] = rng.choice(DEF_VAL_STR)
         if "MyDef" in json.dumps(doc["defs"]) and rng.random() < 0.5:
             tgt = [nm for nm in names if kinds[nm] == "cat"]
             if tgt:
@@ -434,7 +580,7 @@ def gen_wellformed(rng):
 def _add_ref(doc, host, leaf, rng):
     h = doc[host]["HED"]
     ref = "{" + leaf + "}"
-    tail = TAIL_OF.get(host, "Cyan")
+    tail = TAIL_DEFAULT[COLNAMES.index(host) % len(TAIL_DEFAULT)] if host in COLNAMES else "Cyan"
 
     def wrap(s):
         if ref in s:
@@ -445,6 +591,49 @@ def _add_ref(doc, host, leaf, rng):
     else:
         k = rng.choice(list(h))
         h[k] = wrap(h[k])
+
+
+def surplus_hash(text, rng, have, allow_ref=True):
+    """Break the '#' count rule of a string that holds `have` (0 or 1) '#': the surplus '#' is placed at every kind
+    of position where the rule can be broken -- inside the SAME tag as the first one (adjacent, after a separator
+    character, after a word), in another tag of the same group, in another group, before/after everything, next to
+    a reference.  Returns (new text, name of the placement)."""
+    where = rng.choice(["same-tag-adjacent", "same-tag-sep", "same-tag-word", "same-tag-triple", "other-tag-after",
+                        "other-tag-before", "other-group", "other-tag-same-kind", "next-to-ref"] if have else
+                       ["new-tag-after", "new-tag-before", "new-group", "new-tag-double", "in-existing-tag",
+                        "next-to-ref"])
+    if where == "next-to-ref" and (not allow_ref or "{" in text):
+        where = "same-tag-sep" if have else "new-tag-double"
+    if have:
+        i = text.index("#")
+        if where == "same-tag-adjacent":
+            return text[:i] + "##" + text[i + 1:], where
+        if where == "same-tag-sep":
+            return text[:i] + "#" + rng.choice(["_", "-", ".", "a", "1", "é"]) + "#" + text[i + 1:], where
+        if where == "same-tag-word":
+            return text[:i] + rng.choice(["# and #", "# #", "#  #"]) + text[i + 1:], where
+        if where == "same-tag-triple":
+            return text[:i] + rng.choice(["###", "#_#_#", "# # #"]) + text[i + 1:], where
+        if where == "other-tag-after":
+            return text + ", Temperature/#", where
+        if where == "other-tag-before":
+            return "Temperature/#, " + text, where
+        if where == "other-group":
+            return text + ", (Temperature/#, Gold)", where
+        if where == "other-tag-same-kind":
+            return text + ", Temperature/" + rng.choice(["##", "#_#"]), where
+        return "{HED}, " + text[:i] + "#_#" + text[i + 1:], where
+    if where == "new-tag-after":
+        return text + ", Temperature/#", where
+    if where == "new-tag-before":
+        return "Temperature/#, " + text, where
+    if where == "new-group":
+        return "(" + text + ", (Temperature/#, Gold))", where
+    if where == "new-tag-double":
+        return text + ", Temperature/" + rng.choice(["##", "#_#", "# and #"]), where
+    if where == "in-existing-tag":
+        return text + rng.choice(["/#", "#", "/a#b"]), where
+    return "{HED}, " + text + ", Temperature/#", where
 
 
 def inject_fault(doc, kinds, rng):
@@ -484,15 +673,24 @@ def inject_fault(doc, kinds, rng):
         return d, f, "blankValueString"
     if f == "value_hash0" and vals:
         c = rng.choice(vals)
-        d[c]["HED"] = d[c]["HED"].replace("#", "x1")
+        if "def" in d[c]["HED"].lower():
+            return None
+        d[c]["HED"] = d[c]["HED"].replace("#", rng.choice(["x1", "", "abc", "1"]))
         return d, f, "PLACEHOLDER_INVALID"
     if f == "value_hash2" and vals:
         c = rng.choice(vals)
-        d[c]["HED"] = d[c]["HED"] + ", Temperature/#"
-        return d, f, "PLACEHOLDER_INVALID"
+        if "def" in d[c]["HED"].lower():
+            return None
+        d[c]["HED"], where = surplus_hash(d[c]["HED"], rng, have=1, allow_ref="{" + c + "}" not in json.dumps(d))
+        return d, f + ":" + where, "PLACEHOLDER_INVALID"
     if f == "cat_hash" and cats:
-        edit(rng.choice(cats), lambda s: s + ", Temperature/#")
-        return d, f, "PLACEHOLDER_INVALID"
+        c = rng.choice(cats)
+        h = d[c]["HED"]
+        k = rng.choice(list(h))
+        if "def" in h[k].lower():
+            return None
+        h[k], where = surplus_hash(h[k], rng, have=0, allow_ref="{" not in json.dumps(d))
+        return d, f + ":" + where, "PLACEHOLDER_INVALID"
     if f == "hed_colname" and d:
         old = rng.choice(list(d))
         d = {("HED" if k == old else k): v for k, v in d.items()}
@@ -510,13 +708,35 @@ def inject_fault(doc, kinds, rng):
                             {"x": {"y": {"HED": 1}}}, {"Description": "d", "z": [[{"HED": None}]]}])
         return d, f, "SIDECAR_INVALID"
     if f in ("brace_open", "brace_close", "brace_nested") and hed:
-        leafs = [h for h in hed]
-        other = rng.choice(leafs)
+        other = rng.choice(hed)
         bad = {"brace_open": "{" + other, "brace_close": other + "}", "brace_nested": "{{" + other + "}}"}[f]
-        edit(rng.choice(hed), lambda s: s + ", " + bad if rng.random() < 0.7 else bad + ", " + s)
-        return d, f, "SIDECAR_BRACES_INVALID"
+        with_ref = [h for h in hed if "{" in json.dumps(d[h]["HED"])]
+        host = rng.choice(with_ref) if with_ref and rng.random() < 0.5 else rng.choice(hed)
+        where = rng.choice(["start", "end", "before-ref", "after-ref", "middle"])
+
+        def place(s):
+            m = REF_RE.search(s)
+            if where == "start" or (where in ("before-ref", "after-ref") and not m):
+                return bad + ", " + s
+            if where == "end":
+                return s + ", " + bad
+            if where == "before-ref":
+                return s[:m.start()] + bad + ", " + s[m.start():]
+            if where == "after-ref":
+                return s[:m.end()] + ", " + bad + s[m.end():]
+            i = s.find(",")
+            return (s[:i] + ", " + bad + s[i:]) if i >= 0 else s + ", " + bad
+        h = d[host]["HED"]
+        if isinstance(h, str):
+            d[host]["HED"] = place(h)
+        else:
+            ks = [k for k in h if "{" in h[k]] or list(h)
+            k = rng.choice(ks)
+            h[k] = place(h[k])
+        return d, f + ":" + where, "SIDECAR_BRACES_INVALID"
     if f == "unknown_ref" and hed:
-        edit(rng.choice(hed), lambda s: s + ", {" + rng.choice(["nosuch", "q-1", "Z_z", "7"]) + "}")
+        unknown = rng.choice([n for n in ["nosuch", "q-1", "Z_z", "77", "0", "-x-", "_", "Hed", "hed"] if n not in d])
+        edit(rng.choice(hed), lambda s: s + ", {" + unknown + "}")
         return d, f, "SIDECAR_BRACES_INVALID"
     if f == "ignore_ref" and hed and igns:
         edit(rng.choice(hed), lambda s: s + ", {" + rng.choice(igns) + "}")
@@ -535,6 +755,32 @@ def inject_fault(doc, kinds, rng):
         edit(b, lambda s: s + ", {" + tgt + "}")
         return d, f, "SIDECAR_BRACES_INVALID"
     return None
+
+
+DEF_OK = ["(Definition/MyDef, (Triangle, Small))", "(Definition/Acc/#, (Acceleration/# m-per-s^2, Purple))",
+          "(Definition/Third, (Item/Object, Large))"]
+DEF_BAD = ["(Definition/MyDef, (Square))", "(Definition/Bad/#, (Red))", "(Definition/NoPh, (Label/#))",
+           "(Definition/Two, (Red), (Blue))", "(Definition/Nest, (Definition/Inner, (Red)))", "Definition/Bare",
+           "(Definition/MyDef, (Triangle, Small)), Red", "(Definition/Dup, (Green)), (Definition/Dup, (Green))"]
+
+
+def gen_definition_docs(rng, n):
+    out = []
+    for _ in range(n):
+        defs = rng.sample(DEF_OK, rng.randint(1, 3))
+        if rng.random() < 0.7:
+            defs += rng.sample(DEF_BAD, rng.randint(1, 2))
+        rng.shuffle(defs)
+        doc = {"defs": {"HED": {"d" + str(i): x for i, x in enumerate(defs)}}}
+        uses = rng.sample(["Def/MyDef", "Def/Acc/4.5", "Def/Missing", "Def/Third, Red", "(Def/MyDef, Blue)", "Def/Acc",
+                           "Green"], rng.randint(1, 3))
+        doc["cond"] = {"HED": {"k" + str(i): u for i, u in enumerate(uses)}}
+        if rng.random() < 0.5:
+            doc["val"] = {"HED": rng.choice(["Def/Acc/#", "Label/#, Def/MyDef", "Def/Missing/#", "Label/#"])}
+        if rng.random() < 0.3:
+            doc["defs2"] = {"HED": {"e": rng.choice(DEF_OK + DEF_BAD)}}
+        out.append(doc)
+    return out
 
 
 def gen_malformed(rng):
@@ -590,9 +836,21 @@ def make_cases(tier, seed, widen):
     cases = []
 
     def add(doc, kind, **kw):
-        cases.append(dict(doc=doc, text=json.dumps(doc), kind=kind, **kw))
+        # entry point / history dimension: the corpus uses the observation point of the property, every other case
+        # rotates over the equivalent ways of reaching the validator (see impl_one)
+        mode = 0 if kind == "corpus" else len(cases) % len(ENTRY_MODES)
+        cases.append(dict(doc=doc, text=json.dumps(doc), kind=kind, mode=mode, **kw))
     for d in CORPUS:
         add(d, "corpus")
+    for d in CORPUS:            # the corpus again through the history dimension (same object validated twice)
+        add(d, "corpus")
+        cases[-1]["mode"] = 4
+    # definition-bearing sidecars with and without faulty definitions (state kept on the Sidecar object between
+    # calls: cached definition dict and definition issues), each through the plain and the validate-twice path
+    for d in gen_definition_docs(rng, 40 if tier == "quick" else 400):
+        for m in (0, 4, 1):
+            add(d, "defs")
+            cases[-1]["mode"] = m
     docs, ncols = enum_docs(tier)
     for d in docs:
         add(d, "enum")
@@ -663,7 +921,7 @@ def run(tier, seed, res, model_ok=True, proof_ok=True):
         exe = C.build_driver("c08")
         q1 = C.run_driver(exe, [C.to_sx(["Q", FIXED, jsx(c["doc"])]) for c in cases])
     with Pool(int(C.JOBS)) as pool:
-        worked = pool.map(work, list(zip(texts, q1)), chunksize=64)
+        worked = pool.map(work, list(zip(texts, q1, [c["mode"] for c in cases])), chunksize=64)
     impl = [w[0] for w in worked]
 
     # implementation-side oracle (independent of the model)
@@ -750,7 +1008,10 @@ def run(tier, seed, res, model_ok=True, proof_ok=True):
                 f"a/HED/n/a/'' and two columns a,b over {ncols} column values built from the leaf alphabet at every "
                 f"position to depth 3, thorough: plus three columns a,b,c over a sub-alphabet: {nenum} documents, "
                 f"exhaustive for that alphabet) + well-formed sidecars over real "
-                "schema tags, each with 3 single injected faults + random malformed documents; non-trivial = top-level "
+                "schema tags (column names with digits/hyphens/underscores, odd category keys, Def/Def-expand value strings), "
+                "each with 3 single injected faults ('#' faults placed in the same tag / another tag / another group / "
+                "next to a reference) + random malformed documents; every non-corpus case goes through one of 6 entry "
+                "points/histories in rotation; non-trivial = top-level "
                 "object with at least one column that is an object with a HED entry",
         "samples": [cases[0]["text"], cases[len(CORPUS) + nenum // 2]["text"], cases[len(CORPUS) + nenum + 1]["text"],
                     cases[-1]["text"]],
@@ -775,12 +1036,13 @@ def replay(payload):
         print("no concrete input in replay:", str(payload.get("detail", ""))[:800])
         return 1
     doc = json.loads(text)
-    r = impl_one(text)
-    print("input:", text)
+    r = impl_one(text, int(case.get("mode", 0) or 0))
+    print("input:", text, " entry:", ENTRY_MODES[int(case.get("mode", 0) or 0)])
     print("impl:", r)
     res = C.Result(PROP)
     res.known_ids = {}
     c = {"doc": doc, "text": text, "kind": case.get("kind", "replay"), "fault": case.get("fault"),
+         "mode": int(case.get("mode", 0) or 0),
          "valid_strings": case.get("kind") == "wellformed"}
     if payload.get("clause") == "fault-flagged":
         m = re.search(r"expected (\S+),", str(payload.get("detail", "")))
